@@ -127,7 +127,7 @@ def iter_execs(path):
 
 
 def run_harness(bdir, binary, args, programs, workdir, mode='dfs', pb=2, max_exec=20000, seed=0, shards=None,
-                timeout=900, tag='x'):
+                timeout=3600, tag='x'):
     """Run `binary args` over the program lines, sharded over processes.  Returns raw trace files."""
     os.makedirs(workdir, exist_ok=True)
     pf = os.path.join(workdir, tag + '.programs.txt')
